@@ -331,13 +331,13 @@ example : drops [] [] [] [] .err (.call 0 (.storage "DeleteAuthRequest") 0 (.ret
     `toleratedSites` are marked as a finding and the main theorem is `…_partial`.  Replayed on the real handlers by the stream
     (flow revoke, JWT access tokens, fault at KeySet; known-findings.jsonl F-C10a). -/
 def revokeWitnessScript : List Choice :=
-  [.pick "ParseTokenRevocationRequest", .val .nil, .val .nil, .right, .right, .right, .ok, .left, .right, .right, .left,
+  [.pick "ParseTokenRevocationRequest", .val .nil, .val .nil, .right, .right, .right, .ok, .left, .right, .sent, .left, .left,
    .pick "getTokenIDAndSubjectForRevocation", .val (.hard .plain), .pick "VerifyAccessToken", .val .nil, .val .nil, .right,
    .pick "oidc.CheckSignature", .val .nil, .right, .right, .pick "OpenIDKeySet.VerifySignature", .fail .plain, .ok]
 
-/-- the event at position 1 is a failed storage call and a success step follows it -/
+/-- the event at position 2 is a failed storage call and a success step follows it -/
 def revokeWitnessCheck : Option (List Ev × CV) → Bool
-  | some (tr, _) => (tr[1]?.any Ev.isFail) && !noSucc (tr.drop 2)
+  | some (tr, _) => (tr[2]?.any Ev.isFail) && !noSucc (tr.drop 3)
   | none => false
 
 theorem c10_revoke_keyset_witness :
@@ -353,12 +353,12 @@ theorem c10_revoke_keyset_witness :
     rw [hr] at h
     simp only [revokeWitnessCheck, Bool.and_eq_true] at h
     obtain ⟨f, F, hf, hF, hrun⟩ := execFn_sound hr
-    cases he : tr[1]? with
+    cases he : tr[2]? with
     | none => simp [he] at h
-    | some e => exact ⟨f, F, tr, x, 1, e, hf, hF, hrun, he, by simpa [he] using h.1, by simpa using h.2⟩
+    | some e => exact ⟨f, F, tr, x, 2, e, hf, hF, hrun, he, by simpa [he] using h.1, by simpa using h.2⟩
 
-/-- the same execution in events: a successful client lookup, the failing KeySet call, the audited site, RevokeToken, the 200 -/
+/-- the same execution in events: a successful client lookup, the refresh-token lookup (not a refresh token), the failing KeySet call, the audited site, RevokeToken, the 200 -/
 example : (execFn GenC10.fns audit "Revoke" revokeWitnessScript).map (fun r => r.1.map fun e => (e.isCall, e.isFail, e.isAbs, e.isSucc)) =
-    some [(true, false, false, false), (true, true, false, false), (false, false, true, false), (true, false, false, false), (false, false, false, true)] := by decide
+    some [(true, false, false, false), (true, false, false, false), (true, true, false, false), (false, false, true, false), (true, false, false, false), (false, false, false, true)] := by decide
 
 end C10
